@@ -128,3 +128,64 @@ theorem name_in_prepared_inputs (g : G) {i : Init} (hi : i ∈ g.inits) : i.name
     simpa using h
 
 end OV.C10.Fallback
+
+namespace OV.C10.Fallback
+
+/-- The keys of a dict are pairwise different — an invariant of the data structure, not an assumption:
+`register` (dict assignment) preserves it from the empty dict on. -/
+inductive Distinct : List Init → Prop
+  | nil : Distinct []
+  | cons {i : Init} {l : List Init} : (∀ j, j ∈ l → j.name ≠ i.name) → Distinct l → Distinct (i :: l)
+
+theorem Distinct.nameInj {l : List Init} (h : Distinct l) : NameInj l := by
+  induction h with
+  | nil => intro i j hi; simp at hi
+  | @cons a l hne _ ih =>
+    intro i j hi hj hn
+    rcases List.mem_cons.mp hi with h1 | h1 <;> rcases List.mem_cons.mp hj with h2 | h2
+    · rw [h1, h2]
+    · subst h1; exact absurd hn.symm (hne j h2)
+    · subst h2; exact absurd hn (hne i h1)
+    · exact ih i j h1 h2 hn
+
+theorem distinct_append_single {l : List Init} {i : Init} (h : Distinct l) (hn : ∀ j, j ∈ l → j.name ≠ i.name) :
+    Distinct (l ++ [i]) := by
+  induction h with
+  | nil => exact Distinct.cons (fun j hj => by simp at hj) Distinct.nil
+  | @cons a l hne hd ih =>
+    refine Distinct.cons (fun j hj => ?_) (ih (fun j hj => hn j (List.mem_cons_of_mem _ hj)))
+    rcases List.mem_append.mp hj with h1 | h1
+    · exact hne j h1
+    · rw [List.mem_singleton.mp h1]; exact (hn a (List.mem_cons_self ..)).symm
+
+theorem distinct_map_replace {l : List Init} (i : Init) (h : Distinct l) :
+    Distinct (l.map (fun j => if j.name = i.name then i else j)) := by
+  induction h with
+  | nil => exact Distinct.nil
+  | @cons a l hne hd ih =>
+    simp only [List.map_cons]
+    refine Distinct.cons (fun j hj => ?_) ih
+    obtain ⟨j0, hj0, rfl⟩ := List.mem_map.mp hj
+    have h0 := hne j0 hj0
+    by_cases h1 : j0.name = i.name <;> by_cases h2 : a.name = i.name <;> simp only [h1, h2, if_true, if_false]
+    · exact absurd (h1.trans h2.symm) h0
+    · exact fun h => h2 h.symm
+    · exact fun h => h1 h
+    · exact h0
+
+/-- dict assignment keeps the keys pairwise different, whatever is assigned -/
+theorem register_distinct {d : List Init} (i : Init) (h : Distinct d) : Distinct (register d i) := by
+  unfold register
+  split
+  · exact distinct_map_replace i h
+  · rename_i hc
+    refine distinct_append_single h (fun j hj hn => hc ?_)
+    have : i.name ∈ names d := mem_names.mpr ⟨j, hj, hn⟩
+    simpa using this
+
+theorem registerAll_distinct (l : List Init) : ∀ {d : List Init}, Distinct d → Distinct (registerAll d l) := by
+  induction l with
+  | nil => intro d h; exact h
+  | cons i l ih => intro d h; exact ih (register_distinct i h)
+
+end OV.C10.Fallback
